@@ -1,4 +1,5 @@
 import Aurora.Lemmas.RouteProtoTerm
+import Aurora.Generated.RouteSkips
 /-!
 # C28 — Route discovery and relaying are loop-free and terminate
 
@@ -117,6 +118,70 @@ theorem C28_relay_never_revisits (e : Env) (self : Node) (st : NodeSt) (target :
       simp only [Bool.and_eq_true, Bool.not_eq_true', List.contains_eq_mem, decide_eq_false_iff_not] at hc
       rw [hrn] at hc
       exact hc.2 hin
+
+/-- The same clause for the whole of `GetNextHopRandomOrFind`, discovery branch included: when a
+    relaying node has no usable next hop, runs a route discovery inside the relay handler and picks
+    again from what it has learned (whatever response arrived meanwhile, from whomever), the node it
+    may pick is still a connected peer and is on the stream's path only if it is the target — in
+    particular a route learned through the predecessor is not used.  Holds in every state, for
+    every oracle and every response. -/
+theorem C28_relay_after_discovery_never_revisits (e : Env) (o : Oracle) (self : Node) (st : NodeSt)
+    (target : Node) (path : Path) (during : Option (Node × Resp)) (now : Nat) :
+    ∀ next ∈ (relayOrFind e o self st target path during now).offer,
+      e.nbr self next = true ∧ (next ∈ path ++ [self] → next = target) := by
+  intro next hn
+  unfold relayOrFind at hn
+  dsimp only at hn
+  split at hn
+  · exact C28_relay_never_revisits e self st target path next hn
+  · split at hn
+    · simp at hn
+    · split at hn
+      · simp at hn
+      · split at hn
+        · simp at hn
+        · split at hn
+          · simp at hn
+          · exact C28_relay_never_revisits e self _ target path next hn
+
+/-- Non-vacuity of the discovery branch: node 0 (neighbours 1 and 3) relays a stream with path
+    `[2, 1]` for target 5 and has no route; the response `[5, 4, 1]` from its predecessor 1 arrives
+    while it waits: it has learned a route, but only through 1 — nothing to pick; with the response
+    `[5, 4, 3]` from 3 it picks 3. -/
+example :
+    let e : Env := { alpha := 2, ttl := 5, nbr := fun a b => a == 0 && (b == 1 || b == 3) }
+    let o : Oracle := { cands := [(1, 0), (3, 0)], pick := fun l k => l.take k }
+    (relayOrFind e o 0 {} 5 [2, 1] (some (1, { dest := 5, paths := [[5, 4, 1]], utype := 1, ulist := [] })) 0).offer = [] ∧
+    (get (relayOrFind e o 0 {} 5 [2, 1] (some (1, { dest := 5, paths := [[5, 4, 1]], utype := 1, ulist := [] })) 0).st.table 5).isSome ∧
+    (relayOrFind e o 0 {} 5 [2, 1] (some (3, { dest := 5, paths := [[5, 4, 3]], utype := 1, ulist := [] })) 0).offer = [3] := by
+  decide
+
+section Skips
+open Aurora.Generated.RouteSkips
+
+/-- number of calls of `callee` inside `caller` that supply `skips` in the way `how` -/
+def skipCalls (caller callee : String) (how : How) : Nat :=
+  (calls.filter (fun c => c.caller == caller && c.callee == callee && decide (c.how = how))).length
+
+/-- **static obligation** (by evaluation of the table regenerated from pkg/routetab/*.go on every
+    run, harness/cmd/extract/route_skips.go): what `relayOrFind` assumes about route.go.  Both relay
+    handlers hand `GetNextHopRandomOrFind` the items of `req.Paths` after self was appended;
+    `GetNextHopRandomOrFind` looks the next hop up (at least) twice — before and after `FindRoute` —
+    and every one of its lookups gets its own `skips...`; `getNextHopRandom`, `getNextHopEffective`
+    pass `skips...` on to `Table.GetNextHop`; and no call of these functions anywhere in the package
+    leaves the skip list out or supplies something the extractor does not follow.  The seeded change
+    C28-1 (second `getNextHopRandom(target)` without `skips...`) yields a `.missing` row and this
+    fails. -/
+theorem C28_relay_skips_passed :
+    (∀ c ∈ calls, c.how = .param ∨ c.how = .pathItems) ∧
+    skipCalls "Service.onRelay" "GetNextHopRandomOrFind" .pathItems ≥ 1 ∧
+    skipCalls "Service.onRelayConnChain" "GetNextHopRandomOrFind" .pathItems ≥ 1 ∧
+    skipCalls "Service.GetNextHopRandomOrFind" "getNextHopRandom" .param ≥ 2 ∧
+    skipCalls "Service.getNextHopRandom" "getNextHopEffective" .param ≥ 1 ∧
+    skipCalls "Service.getNextHopEffective" "GetNextHop" .param ≥ 1 := by
+  decide
+
+end Skips
 
 /-- The same for forwarded requests: `onRouteReq` never forwards a request to a node that is on one
     of its paths, unless that node is the requested target (reached because it is a neighbour). -/
